@@ -2,7 +2,7 @@
 from ..registry import rule
 from .walrules import *
 from .walrules import _error_arms, _place_enum
-from ..core import _rvalue_operands
+from ..core import _rvalue_operands, rvalue_places
 from ..core import bool_call_condition
 
 EXPLANATION = ("Writer/reader agreement and check-before-use for the commit log, decided structurally: both sides use the "
@@ -273,3 +273,50 @@ def r4(cx):
 def r5(cx):
     rule_open_after_repair(cx)
     rule_append_after_validated_tail(cx)
+
+
+@rule("C12", "C12.R6", "fragment typing: the writer's choice and the reader's acceptance table describe the same language")
+def r6(cx):
+    from ..e3 import Region
+    f = cx.f
+    wb = f.body("Writer::add_record")
+    ms = [c for c in wb.calls_to("Writer::maybe_switch_to_new_block") if wb.in_cycle(c.bb)]
+    if not ms:
+        raise AnchorMissing("Writer::add_record: fragment loop not found")
+    names = {l: "begin" for l, (ty, nm) in enumerate(wb.locals) if ty == "bool" and nm == "begin"}
+    leaves = Region(wb, ms[0].bb, stops={ms[0].bb: "next"}, capture={"Writer::emit_physical_record": ("type", 1)}, local_names=names).run()
+    wt = {}
+    for lf in leaves:
+        ty = [m.split("=")[1].replace("RecordType::", "").replace("()", "") for m in lf.marks if m.startswith("type=")]
+        if not ty:
+            continue
+        begin = lf.cond.get("begin")
+        rel = [v for k, v in lf.cond.items() if k.startswith("rel(len(")]
+        if begin is None or not rel:
+            continue
+        wt.setdefault((begin, rel[0] == "eq"), set()).add(ty[0])
+    want_w = {(True, True): {"Full"}, (True, False): {"First"}, (False, True): {"Last"}, (False, False): {"Middle"}}
+    cx.table("writer fragment type (begin, is_end) -> type", [[str(k), str(sorted(v))] for k, v in sorted(wt.items(), key=str)])
+    cx.check(wt == want_w, "writer: (first fragment?, last fragment?) -> Full / First / Last / Middle", "writer-fragment-table", wb.where(),
+             "the writer's fragment typing is %s" % {str(k): sorted(v) for k, v in wt.items()})
+    # `begin` is cleared after the first fragment
+    clr = [i for i, j, lhs, rv, _ in wb.assigns() if len(lhs) == 1 and lhs[0] in names and rv[0] == "use" and rv[1][0] == "k" and rv[1][1].get("v") == "0"]
+    cx.check(bool(clr) and all(wb.in_cycle(i) for i in clr), "`begin` is cleared inside the fragment loop", "begin-not-cleared", wb.where())
+    # reader
+    vb = f.body("wal::validate_record_type")
+    rt = {}
+    for lf in Region(vb, 0).run():
+        var = lf.cond.get("variant(p1)")
+        rel = [v for k, v in lf.cond.items() if k.startswith("rel(0,")]
+        okv = lf.ret is not None and lf.ret[0] == "agg" and lf.ret[3] == "Ok"
+        for r in (rel or ["lt", "eq", "gt"]):
+            rt[(var, r == "eq")] = okv if (var, r == "eq") not in rt else (rt[(var, r == "eq")] and okv) if r != "eq" else okv
+    accept = {k for k, v in rt.items() if v}
+    want_r = {("Full", True), ("First", True), ("Middle", False), ("Last", False)}
+    cx.table("reader validate_record_type (type, fragment_index == 0) -> accepted", [[str(k), str(v)] for k, v in sorted(rt.items(), key=str)])
+    cx.check(accept == want_r, "reader accepts Full/First only as the first fragment and Middle/Last only after one", "reader-fragment-table", vb.where(),
+             "validate_record_type accepts %s" % sorted(accept))
+    # the reader ends a logical record on Last or Full and counts fragments otherwise
+    nb = f.body("wal::reader::Reader::next")
+    incs = [(i, rv) for i, j, lhs, rv, _ in nb.assigns() if rv[0] == "bin" and rv[1].startswith("Add") and any(nb.local_name(pl[0]) == "fragment_index" for pl in rvalue_places(rv))]
+    cx.check(len(incs) == 1 and nb.in_cycle(incs[0][0]), "the reader counts fragments (fragment_index += 1 per non-final fragment)", "fragment-count", nb.where())
